@@ -1,1 +1,94 @@
-From Coq Require Import ZArith.
+(* C09 — Colours are stored exactly; colour forms and blending follow the tables.
+   Statements only; proofs in proofs/ColorProofs.v.
+   Pending (kept visible): palette_roundtrip — every suggested palette whose entries are valid premultiplied
+   colours decodes to the same 64 entries.  The writer (Encoder.palette_chunk) and the reader
+   (Decoder.read_palette) are modelled and compared with the implementation on every run, but the
+   list induction tying them is not finished; the per-colour round trips below are its core. *)
+From Coq Require Import ZArith Bool List.
+From IVG Require Import SF NumCodec Color NumBase ColorProofs Tables.
+Import ListNotations.
+Local Open Scope Z_scope.
+
+(* the table in color.go (regenerated from /repo on every run) is the model's table *)
+Theorem dc1_table_is_current : dc1 = Tables.dc1Table.
+Proof. exact ColorProofs.dc1_is_code_table. Qed.
+Print Assumptions dc1_table_is_current.
+
+(* all 256 one-byte colours decode as the specification's table says *)
+Theorem color1_table : forall x, 0 <= x < 256 -> decode_color1 x = spec_color1 x.
+Proof. exact ColorProofs.color1_table. Qed.
+Print Assumptions color1_table.
+
+Theorem color2_table : forall x y rest,
+  dec_color2 (x :: y :: rest) = Some (CRGBA (mkRGBA (17 * (x / 16)) (17 * (x mod 16)) (17 * (y / 16)) (17 * (y mod 16))), 2%nat).
+Proof. exact ColorProofs.color2_table. Qed.
+Print Assumptions color2_table.
+
+Theorem color3direct_table : forall x y z rest, dec_color3direct (x :: y :: z :: rest) = Some (CRGBA (mkRGBA x y z 255), 3%nat).
+Proof. exact ColorProofs.color3direct_table. Qed.
+Print Assumptions color3direct_table.
+
+Theorem color4_table : forall x y z w rest, dec_color4 (x :: y :: z :: w :: rest) = Some (CRGBA (mkRGBA x y z w), 4%nat).
+Proof. exact ColorProofs.color4_table. Qed.
+Print Assumptions color4_table.
+
+Theorem color3indirect_table : forall x y z rest, dec_color3indirect (x :: y :: z :: rest) = Some (CBlend x y z, 3%nat).
+Proof. exact ColorProofs.color3indirect_table. Qed.
+Print Assumptions color3indirect_table.
+
+Theorem color_truncated : forall k b, 0 <= k <= 4 ->
+  (dec_color_form k b = None <-> (length b < color_width k)%nat).
+Proof. exact ColorProofs.color_truncated. Qed.
+Print Assumptions color_truncated.
+
+(* every colour (all 2^32 RGBA values incl. gradient-encoding ones, palette indices, registers, blends)
+   is written by SetCReg in a form that decodes to exactly the same colour *)
+Theorem enc_dec_color : forall c rest, wf_color c ->
+  let '(base, bytes) := enc_color c in
+  (base = 128 \/ base = 136 \/ base = 144 \/ base = 152 \/ base = 160) /\
+  Forall wf_chan bytes /\
+  dec_color_form ((base - 128) / 8) (bytes ++ rest) = Some (c, length bytes).
+Proof. exact ColorProofs.enc_dec_color. Qed.
+Print Assumptions enc_dec_color.
+
+Theorem encode1_decode1 : forall c x, wf_color c -> encode1 c = Some x -> 0 <= x < 256 /\ decode_color1 x = c.
+Proof. exact ColorProofs.encode1_decode1. Qed.
+Print Assumptions encode1_decode1.
+
+Theorem blend_formula : forall pal creg t c0 c1,
+  let a := resolve_simple pal creg (decode_color1 c0) in
+  let b := resolve_simple pal creg (decode_color1 c1) in
+  resolve pal creg (CBlend t c0 c1) =
+  mkRGBA (blend_chan t (cr a) (cr b)) (blend_chan t (cg a) (cg b)) (blend_chan t (cb a) (cb b)) (blend_chan t (ca a) (ca b)).
+Proof. exact ColorProofs.blend_formula. Qed.
+Print Assumptions blend_formula.
+
+Theorem blend_chan_formula : forall t x0 x1, wf_chan t -> wf_chan x0 -> wf_chan x1 ->
+  blend_chan t x0 x1 = ((255 - t) * x0 + t * x1 + 128) / 255 /\ wf_chan (blend_chan t x0 x1).
+Proof. exact ColorProofs.blend_chan_range. Qed.
+Print Assumptions blend_chan_formula.
+
+Theorem blend_endpoints : forall pal creg c0 c1, wf_regs pal -> wf_regs creg -> wf_chan c0 -> wf_chan c1 ->
+  resolve pal creg (CBlend 0 c0 c1) = resolve_simple pal creg (decode_color1 c0) /\
+  resolve pal creg (CBlend 255 c0 c1) = resolve_simple pal creg (decode_color1 c1).
+Proof. exact ColorProofs.blend_endpoints. Qed.
+Print Assumptions blend_endpoints.
+
+Theorem blend_premul : forall pal creg t c0 c1, wf_regs pal -> wf_regs creg -> wf_chan t -> wf_chan c0 -> wf_chan c1 ->
+  valid_premul (resolve_simple pal creg (decode_color1 c0)) = true ->
+  valid_premul (resolve_simple pal creg (decode_color1 c1)) = true ->
+  valid_premul (resolve pal creg (CBlend t c0 c1)) = true /\ wf_rgba (resolve pal creg (CBlend t c0 c1)).
+Proof. exact ColorProofs.blend_premul. Qed.
+Print Assumptions blend_premul.
+
+Theorem gradient_roundtrip : forall cbase nbase sh sp ns,
+  0 <= cbase < 64 -> 0 <= nbase < 64 -> 0 <= sh < 2 -> 0 <= sp < 4 -> 0 <= ns < 64 ->
+  let c := encode_gradient cbase nbase sh sp ns in
+  decode_gradient c = mkGP cbase nbase sh sp ns /\ valid_gradient c = true /\ valid_premul c = false /\ wf_rgba c.
+Proof. exact ColorProofs.gradient_roundtrip. Qed.
+Print Assumptions gradient_roundtrip.
+
+Example ex_blend : resolve (repeat opaque_black 64) (repeat opaque_black 64) (CBlend 64 127 124) = mkRGBA 64 64 64 64.
+Proof. vm_compute. auto. Qed.
+Example ex_enc : enc_color (CRGBA (mkRGBA 64 64 64 64)) = (152, [64; 64; 64; 64]) /\ enc_color (CRGBA (mkRGBA 68 68 68 68)) = (136, [68; 68]).
+Proof. vm_compute. auto. Qed.
